@@ -170,11 +170,19 @@ class Case:
         import scipy.sparse as sp
         rh = ctx.rng("adjform", cid)
         form = str(rh.choice(["i1", "i1", "i8", "bool", "f8", "list",
-                              "csr", "csc", "coo", "lil"]))
+                              "csr", "csc", "coo", "lil", "csr0", "csc0"]))
         if form in ("i1", "i8", "bool", "f8"):
             Ah = A.astype(form)
         elif form == "list":
             Ah = A.astype(int).tolist()
+        elif form in ("csr0", "csc0"):
+            # sparse input with explicitly stored zeros (entries cleared in
+            # place, thresholded data arrays): they are not links
+            rr, cc = np.nonzero(~np.eye(self.n, dtype=bool))
+            Ah = getattr(sp, form[:3] + "_matrix")(
+                (A[rr, cc].astype(np.int8), (rr, cc)),
+                shape=(self.n, self.n))
+            form += ":explicit-zeros"
         else:
             sdt = str(rh.choice(["bool", "i1", "i8", "f8", "u1"]))
             Ah = getattr(sp, form + "_matrix")(A.astype(sdt))
